@@ -79,7 +79,7 @@ def handleError (args : List String) (obs : String) : String :=
 /-- c20s: `name nnn`; the statement is "normal response with exactly that code". -/
 def handleStatus (args : List String) (obs : String) : String :=
   match args with
-  | [_name, nnn] =>
+  | _name :: nnn :: _ =>
     let model := s!"normal {nnn}"
     let verdict :=
       match obs.splitOn " " with
